@@ -85,6 +85,29 @@ func framePool(seed uint64) [][]byte {
 			}
 		}
 	}
+	// base stations that have not been given a position yet (all coordinates zero), with
+	// and without a height
+	for _, t := range []int{1005, 1006} {
+		for _, h := range []uint{0, 15000} {
+			b := gen.RandBase(r, t)
+			b.X, b.Y, b.Z, b.Height, b.Trailing = 0, 0, 0, h, nil
+			pool = append(pool, ref.Frame(ref.EncodeBase(b, t)))
+		}
+	}
+	// part messages: the multiple-message flag set and fewer cells sent than the mask lists
+	for _, t := range []int{1074, 1077, 1084, 1097, 1124} {
+		for k := 0; k < 3; k++ {
+			m := gen.RandMSM(r, gen.MSMOpts{Type: t})
+			if len(m.Sigs) < 2 {
+				continue
+			}
+			m.Multiple = true
+			m.CellsSent = r.Range(1, len(m.Sigs)-1)
+			if p := ref.EncodeMSM(m); len(p) <= 1023 {
+				pool = append(pool, ref.Frame(p))
+			}
+		}
+	}
 	for i := 0; i < 30; i++ {
 		t := 1005 + i%2
 		p := ref.EncodeBase(gen.RandBase(r, t), t)
